@@ -57,32 +57,32 @@ type TapeEntry struct {
 }
 
 type Interp struct {
-	P        *Program
-	ts       *TermStore
-	ctx      *Ctx
-	run      *pathRun
-	globals  map[*ssa.Global]*value
-	pkgInit  map[*ssa.Package]int
-	steps    int64
-	maxSteps int64
-	maxDepth int
-	tape     []*TapeEntry
-	ghost    map[string]value
-	hashApps []*hashApp
-	nfresh   int
-	curFrame *frame
-	jsonToks map[string]value
-	ntok     int
-	errSeq   int
-	timeSeq  int
-	cfg      *HarnessCfg
-	result   *HarnessResult
+	P            *Program
+	ts           *TermStore
+	ctx          *Ctx
+	run          *pathRun
+	globals      map[*ssa.Global]*value
+	pkgInit      map[*ssa.Package]int
+	steps        int64
+	maxSteps     int64
+	maxDepth     int
+	tape         []*TapeEntry
+	ghost        map[string]value
+	hashApps     []*hashApp
+	nfresh       int
+	curFrame     *frame
+	jsonToks     map[string]value
+	ntok         int
+	errSeq       int
+	timeSeq      int
+	cfg          *HarnessCfg
+	result       *HarnessResult
 	lastPanicPos string
-	fmtDepth int
-	funcsSeen map[*ssa.Function]bool
-	models    map[string]int
-	assumes   map[string]bool
-	sch       schedState
+	fmtDepth     int
+	funcsSeen    map[*ssa.Function]bool
+	models       map[string]int
+	assumes      map[string]bool
+	sch          schedState
 }
 
 func (in *Interp) fresh(prefix string, w int) *Term {
@@ -884,7 +884,6 @@ func (in *Interp) sliceOp(fr *frame, instr *ssa.Slice) value {
 	}
 	return elems[lo:hi:max]
 }
-
 
 func (in *Interp) unop(fr *frame, instr *ssa.UnOp) value {
 	x := fr.get(instr.X)
